@@ -25,6 +25,9 @@ pub enum Pre {
     Forget(u16),
     /// a probe round whose target never answers (it becomes Suspect, stays active)
     FailedRound,
+    /// the instance is told about another generation of its own address (older or newer, Alive or
+    /// Suspect): such a record is never an active member, hence never a probe target
+    OwnAddress { newer: bool, suspect: bool },
 }
 
 #[derive(Clone, Debug, Serialize, Deserialize)]
@@ -111,7 +114,7 @@ impl Sim {
 pub fn exec_layout(l: &Layout, out: &mut CaseOut) -> Result<(), Fail> {
     let cfg = CfgSpec { num_indirect: 1, max_tx: 1, remove_down_ms: 1000, ..CfgSpec::default() };
     let mut s = Sim {
-        inst: Inst::new(Id::new(0, 0), cfg, l.codec, l.rng_seed, HandlerSpec::OFF),
+        inst: Inst::new(Id::new(0, 1), cfg, l.codec, l.rng_seed, HandlerSpec::OFF),
         next_addr: 1,
         probe_timer: None,
         indirect_timer: None,
@@ -127,6 +130,14 @@ pub fn exec_layout(l: &Layout, out: &mut CaseOut) -> Result<(), Fail> {
             }
             Pre::FailedRound => {
                 s.round(false)?;
+            }
+            Pre::OwnAddress { newer, suspect } => {
+                // the instance itself is generation 1 so that an older one exists
+                let own = *s.inst.foca.identity();
+                let other = Id::new(own.addr, if *newer { own.gen + 1 } else { own.gen.saturating_sub(1) });
+                if other != own {
+                    s.call(Call::ApplyMany(vec![Member::new(other, 0, if *suspect { State::Suspect } else { State::Alive })], false))?;
+                }
             }
             Pre::Join => s.add(true)?,
             Pre::JoinDown => s.add(false)?,
@@ -236,6 +247,7 @@ impl Part for LayoutPart {
             1 => Just(Pre::JoinDown),
             2 => any::<u16>().prop_map(Pre::Kill),
             1 => any::<u16>().prop_map(Pre::Forget),
+            1 => (any::<bool>(), any::<bool>()).prop_map(|(newer, suspect)| Pre::OwnAddress { newer, suspect }),
         ];
         (
             proptest::collection::vec(prop_oneof![3 => Just(true), 2 => Just(false)], 1..maxn + 8),
@@ -307,7 +319,7 @@ pub fn run(ctx: &Ctx, report: &mut Report) -> EvidenceMeta {
     ctx.run_part(&LayoutPart, report);
     EvidenceMeta {
         level: "exploration",
-        rule: "one instance; members and Down records inserted in a generated order (storage position also depends on the generated RNG seed); a generated prefix of successful/failed probe rounds, joins, members declared Down and forget-timers so that the cursor starts anywhere (a forget-timer must leave the set of active members untouched); then 6n+4 probe rounds with the membership held stable (every Ping is answered by a correct Ack, suspicion timers never fire). Small spaces (n+d<=5 x 256 seeds x 0..3 warm-up rounds) are enumerated completely, larger ones (n<=12 quick / 20 thorough, d<=8) by proptest. Oracle: exactly one Ping per round, to an active member, never a Down record nor the own address; every window of 2n-1 consecutive rounds pings every active member. Non-trivial: at least one Down record and at least one wrap of the cursor while a Down record sits at the first or last storage position; distinct = (n, d, #such wraps, seed class, prefix length)."
+        rule: "one instance; members and Down records inserted in a generated order (storage position also depends on the generated RNG seed); a generated prefix of successful/failed probe rounds, joins, members declared Down and forget-timers so that the cursor starts anywhere (a forget-timer must leave the set of active members untouched; updates about older and newer generations of the instance's own address are among the prefix events: they never become probe targets); then 6n+4 probe rounds with the membership held stable (every Ping is answered by a correct Ack, suspicion timers never fire). Small spaces (n+d<=5 x 256 seeds x 0..3 warm-up rounds) are enumerated completely, larger ones (n<=12 quick / 20 thorough, d<=8) by proptest. Oracle: exactly one Ping per round, to an active member, never a Down record nor the own address; every window of 2n-1 consecutive rounds pings every active member. Non-trivial: at least one Down record and at least one wrap of the cursor while a Down record sits at the first or last storage position; distinct = (n, d, #such wraps, seed class, prefix length)."
             .into(),
         assumptions: vec!["membership stability is enforced by the harness (correct Acks, no suspicion time-outs)".into()],
     }
